@@ -429,8 +429,8 @@ class DHEat:
                 _close_socket(socket_dict, timedout_sockets[0])
                 del timedout_sockets[0]
 
-            # Open new sockets until we've hit the number of concurrent sockets, or if we exceeded the number of maximum connections.
-            while (len(socket_dict) < concurrent_sockets) and (len(socket_dict) + num_opened_connections < max_connections):
+            # Open new sockets until we've hit the number of concurrent sockets, or if we exceeded the number of maximum connections.  Every connection attempt counts towards the maximum (not only those that yielded an SSH banner); otherwise a server that closes or resets connections immediately would be re-dialled continuously until the time limit elapses.
+            while (len(socket_dict) < concurrent_sockets) and (num_attempted_connections < max_connections):
                 s = socket.socket(target_address_family, socket.SOCK_STREAM)
                 s.setblocking(False)
 
